@@ -651,6 +651,32 @@ pub struct ServerRun {
     pub pending_at_end: Vec<String>,
 }
 
+impl ServerRun {
+    pub fn shallow_clone(&self) -> ServerRun {
+        ServerRun {
+            outputs: self.outputs.clone(),
+            calls: self.calls.clone(),
+            log: self.log.clone(),
+            decisions: self.decisions.clone(),
+            events: self.events,
+            msgs: self.msgs,
+            msgs_by_comp: self.msgs_by_comp.clone(),
+            machines_started: self.machines_started.clone(),
+            machines_stopped: self.machines_stopped.clone(),
+            permits: self.permits.clone(),
+            panics: self.panics.clone(),
+            stalled: self.stalled,
+            stalled_machines: self.stalled_machines.clone(),
+            event_limit: self.event_limit,
+            fired: self.fired.clone(),
+            log_hash: self.log_hash,
+            max_overlap: self.max_overlap.clone(),
+            max_led_active: self.max_led_active.clone(),
+            pending_at_end: self.pending_at_end.clone(),
+        }
+    }
+}
+
 #[derive(Clone, Debug, PartialEq)]
 enum Ev {
     Rpc(u64, Verdict),
